@@ -119,6 +119,10 @@ func (e *SpecEnv) lookupType(name string) types.Type {
 		return types.Universe.Lookup("error").Type()
 	case "any":
 		return types.NewInterfaceType(nil, nil)
+	case "anyslice": // []interface{}
+		return types.NewSlice(types.NewInterfaceType(nil, nil))
+	case "anymap": // map[string]interface{}
+		return types.NewMap(types.Typ[types.String], types.NewInterfaceType(nil, nil))
 	}
 	pkg := e.pkg
 	if i := strings.Index(name, "."); i >= 0 {
